@@ -214,10 +214,10 @@ func engineAnyu(rep *Report) {
 		}
 	}
 	if si == 0 {
-		anyuFailedPack(rep)
-		anyuWKT(rep)
-		anyuSelfPack(rep)
-		anyuSameNameTwoRegistries(rep)
+		guardCase(rep, "C16", "anyu", "failed-pack", 0, func() { anyuFailedPack(rep) })
+		guardCase(rep, "C16", "anyu", "well-known-types", 0, func() { anyuWKT(rep) })
+		guardCase(rep, "C16", "anyu", "self-pack", 0, func() { anyuSelfPack(rep) })
+		guardCase(rep, "C16", "anyu", "same-name-two-registries", 0, func() { anyuSameNameTwoRegistries(rep) })
 	}
 }
 
